@@ -711,7 +711,11 @@ static std::string run_script(const std::vector<std::string>& lines, std::ostrea
             });
             if (h == "new") R << "#" << issue(res); else R << hname(res);
         }
-        else if (op == "clone") { std::string h; in >> h; Entity e = parse_handle(h); Entity c = em.clone(e); if (c.isNull()) R << "null"; else R << "#" << issue(c) << " " << c.id().toInt() << ":" << c.version().toInt(); }
+        else if (op == "clone" || op == "clonemap") { // clonemap: the overload taking the caller's CloneEntityMap
+            std::string h; in >> h; Entity e = parse_handle(h);
+            struct CountingMap : CloneEntityMap { int adds = 0; Entity src, dst; void add(Entity a, Entity b) override { ++adds; src = a; dst = b; } Entity remap(Entity x) const override { return x == src ? dst : x; } } cmap;
+            Entity c = op == "clone" ? em.clone(e) : em.clone(e, cmap);
+            if (op == "clonemap" && (cmap.adds != (c.isNull() ? 0 : 1) || (!c.isNull() && (cmap.src != e || cmap.dst != c)))) R << "badmap "; if (c.isNull()) R << "null"; else R << "#" << issue(c) << " " << c.id().toInt() << ":" << c.version().toInt(); }
         else if (op == "assignshared") { std::string h; int sp; int64_t v; in >> h >> sp >> v; Entity e = parse_handle(h); do_register_shared(sp);
             if (sp == 0) em.assign<S0>(e, v); else if (sp == 1) em.assign<S1>(e, v); else em.assign<S2>(e, v); }
         else if (op == "removeshared") { std::string h; int sp; in >> h >> sp; Entity e = parse_handle(h); do_register_shared(sp);
